@@ -58,13 +58,57 @@ else
   timeout -k 10 "$LIMIT" "$VERIF/$CRATE/target/release/$BIN" "$ID" "$TIER" "$@"
   rc=$?
 fi
-if [ $rc -eq 124 ] || [ $rc -eq 137 ]; then
+if [ $rc -eq 124 ]; then
   echo "INCONCLUSIVE: watchdog expired after ${LIMIT}s (not a violation)"
+  exit 2
+fi
+if [ $rc -eq 137 ]; then
+  echo "INCONCLUSIVE: the checker was killed (out of memory, or the watchdog's KILL after ${LIMIT}s) - not a violation"
   exit 2
 fi
 if [ $rc -ne 0 ] && [ $rc -ne 1 ]; then
   echo "INCONCLUSIVE: checker exited with status $rc"
   exit 2
+fi
+
+# schedule-tier properties: a complementary pass on real threads (blackbox/: same drivers and oracles, no hook, several
+# configurations run one after the other in one process). It sees what the shuttle shims cannot: code that bypasses them
+# (std primitives used directly, process-wide state surviving from one parallel call to the next). A hang there is
+# reported as inconclusive (exit 2), never as a violation.
+if [ $rc -eq 0 ] && [ "$CRATE" = sched ] && [ "$TIER" != replay ]; then
+  BUILD_LOG=$(mktemp /tmp/seqio_verif_build.XXXXXX)
+  if (cd "$VERIF/blackbox" && cargo build --release --offline) >"$BUILD_LOG" 2>&1; then
+    ERR_LOG=$(mktemp /tmp/seqio_verif_stderr.XXXXXX)
+    SEQIO_EVIDENCE_NAME="$ID.realthreads" timeout -k 10 "$LIMIT" "$VERIF/blackbox/target/release/seqio_verif_blackbox" "$ID" "$TIER" 2>"$ERR_LOG" | sed 's/^\(C[0-9][0-9] [a-z]*:\)/real-thread pass \1/'
+    rc2=${PIPESTATUS[0]}
+    if [ $rc2 -ne 0 ] && [ $rc2 -ne 1 ]; then tail -5 "$ERR_LOG"; fi
+    rm -f "$ERR_LOG"
+    python3 - "$VERIF/evidence/$ID.json" "$VERIF/evidence/$ID.realthreads.json" <<'PYEOF'
+import json, os, sys
+main, extra = sys.argv[1], sys.argv[2]
+try:
+    m = json.load(open(main)); e = json.load(open(extra))
+    c = e.get("coverage", {})
+    m["coverage"]["real_thread_pass"] = {"evaluations": c.get("evaluations"), "distinct_nontrivial": c.get("distinct_nontrivial"),
+        "classes": c.get("classes"), "sub_checks": c.get("sub_checks"), "schedule_tier": c.get("schedule_tier"), "wall_s": e.get("wall_s"), "violations": e.get("violations")}
+    json.dump(m, open(main, "w"), indent=2)
+except Exception as ex:
+    print("note: could not merge the real-thread evidence:", ex)
+try:
+    os.remove(extra)
+except OSError:
+    pass
+PYEOF
+    if [ $rc2 -eq 1 ]; then
+      rc=1
+    elif [ $rc2 -ne 0 ]; then
+      echo "INCONCLUSIVE: the real-thread pass ended with status $rc2 (a hang on real threads cannot be told from slowness)"
+      rc=2
+    fi
+  else
+    echo "INCONCLUSIVE: build of blackbox failed"; tail -20 "$BUILD_LOG"; rc=2
+  fi
+  rm -f "$BUILD_LOG"
 fi
 
 # thorough tier of the byte-string properties: add a coverage-guided libFuzzer campaign with the same oracle
